@@ -185,6 +185,9 @@ def query(draw, nwp):
     if op == 'loc_wp':
         return {'op': 'loc_wp', 'k': draw(st.integers(0, nwp - 1)), 'delta': draw(DELTA)}
     if op == 'step':
+        if draw(st.integers(0, 3)) == 0:
+            # a step that ends on the last point of the track, give or take one rounding error
+            return {'op': 'step', 'fa': draw(FRACTION), 'fb': 1.0, 'end_ulp': draw(st.sampled_from([-1, 0, 0, 1]))}
         return {'op': 'step', 'fa': draw(FRACTION), 'fb': draw(FRACTION)}
     if op == 'beyond':
         return {
@@ -487,7 +490,24 @@ class TrackCheck:
         a = q['fa'] * self.Lc
         b = q['fb'] * (self.Lc - a)
         s = a + b
-        if s > self.Lc:  # rounding; keep the request in range
+        if 'end_ulp' in q:
+            import math
+
+            b = self.Lc - a
+            if q['end_ulp']:
+                b = math.nextafter(b, math.inf if q['end_ulp'] > 0 else 0.0)
+            s = a + b
+            self.ctx.label('q.step.to_track_end')
+            if s > self.Lc:
+                # the sum is what decides (step = location(a + b)): this request is beyond the end
+                self.ctx.label('q.step.to_track_end.sum_beyond')
+                st_, pt = self.call(self.track.step, a, b)
+                if not self.case['overstep']:
+                    self.expect_refusal(st_, pt, 'refuse.beyond_end', 'step', f'step({a!r}, {b!r}) with L={self.Lc!r}')
+                elif st_ != 'ok':
+                    _fail_exc(self.ctx, 'overstep.refused', pt, self.shape)
+                return
+        elif s > self.Lc:  # rounding; keep the request in range
             b = 0.0
             s = a + b
         st_, pt = self.call(self.track.step, a, b)
